@@ -1,10 +1,11 @@
-SPECIFICATION Spec
+SPECIFICATION TSpec
 CONSTANTS
   Files <- MCFiles
   Listeners <- MCListeners
   Reg <- MCReg
-  MaxWrites = 3
-  MaxErrors = 1
+  MaxWrites = 1000000
+  MaxErrors = 1000000
   Variant = "per_event"
-INVARIANTS TypeOK LoadedWasWritten NotifiedOfLast
+CONSTRAINT Export
+POSTCONDITION Done
 CHECK_DEADLOCK FALSE
